@@ -69,6 +69,10 @@ def run(chk: Check) -> None:
     atom_terminal_guard(chk)
     terminal_hooks_cannot_fail_on_futures(chk)
     subscription_idempotent(chk)
+    # the launcher's reply is one of the reports of the outcome: it reads the process future only AFTER the process was stepped to its end (a future fetched while
+    # the process is live may be the one on_except / on_kill later replace) -- shared with C17
+    from .c17 import launcher_replies_after_stepping
+    launcher_replies_after_stepping(chk, 'FUT-launcher-reply')
     inflight_step_released(chk)
     hooks_outlive_transitions(chk)
     # an exception escaping on_entered after the terminal state was entered makes the machine treat the transition as failed: a second terminal notification,
@@ -463,6 +467,12 @@ def close_once(chk: Check) -> None:
            kind='at-most-once')
     runs = [c for l in loops for c in ast.walk(l) if isinstance(c, ast.Call) and isinstance(c.func, ast.Name) and c.func.id == norm(l.target)]
     chk.ob('PAIR-cleanups-once', on_close, len(loops) == 1 and len(runs) == 1, 'on_close runs every registered cleanup once', kind='runs-each')
+    # "registered cleanups run": add_cleanup is accepted until the process is closed, i.e. also from inside a cleanup -- the loop runs over the LIST ITSELF, which
+    # picks such a late registration up; over a copy it would be accepted and never run (unlike the listeners, which must not see themselves removed)
+    if len(loops) == 1:
+        it_ = res_oc.expand(loops[0].iter)
+        live = norm(it_) in ('self._cleanups', 'self._cleanups or []', 'self._cleanups or ()')
+        chk.ob('PAIR-cleanups-once', on_close, live, f'on_close iterates the cleanup list itself ({norm(it_)}): a cleanup registered by a cleanup still runs', node=loops[0], kind='runs-late-registrations')
     # a cleanup that raises (plumpy's own unsubscribe calls can, when the connection is gone) must not keep the remaining ones from running:
     # what it raises has to be caught inside the loop body
     from ..esc import Esc
